@@ -107,3 +107,12 @@ Theorem row_ptr_int32_wraps :
   exists pitch h i, 0 <= pitch < 2 ^ 31 /\ 0 <= i < h /\ h < 2 ^ 31 /\
     wrap_int32 (i * pitch) = i * pitch - 2 ^ 32 /\ wrap_int32 (i * pitch) < 0.
 Proof. exists 1048576, 2056, 2048. vm_compute. repeat split; try discriminate; reflexivity. Qed.
+
+(* the source under test HAS the three checks (fails to compile as soon as gen_Align reads otherwise) *)
+Theorem recheck_checks_present : dec_chk_left && dec_chk_width && dec_chk_bottom = true.
+Proof. reflexivity. Qed.
+Theorem recheck_positive_now : recheck_ok dec_chk_left dec_chk_width dec_chk_bottom.
+Proof.
+  pose proof recheck_checks_present as H. apply andb_prop in H as [H Hb]. apply andb_prop in H as [Hl Hw].
+  rewrite Hl, Hw, Hb. unfold recheck_ok. intros. eapply recheck_sound; eassumption.
+Qed.
